@@ -14,12 +14,12 @@ import (
 )
 
 type pollDesc11 struct {
-	InBuf   int       `json:"inbuf"` // size of the buffer handed out by Inputs
-	Out     int       `json:"out"`   // bytes to send through Outputs/OutputAck
-	Peer    []peerAct `json:"peer"`
-	Detach  bool      `json:"detach,omitempty"` // the user detaches the operator at some point
-	Unread  bool      `json:"unread,omitempty"` // our side never reads what the peer sent (reset on peer close)
-	Writable bool     `json:"writable,omitempty"` // registered with PollWritable (edge triggered, as the dialer does): OnWrite/OnHup only
+	InBuf    int       `json:"inbuf"` // size of the buffer handed out by Inputs
+	Out      int       `json:"out"`   // bytes to send through Outputs/OutputAck
+	Peer     []peerAct `json:"peer"`
+	Detach   bool      `json:"detach,omitempty"`   // the user detaches the operator at some point
+	Unread   bool      `json:"unread,omitempty"`   // our side never reads what the peer sent (reset on peer close)
+	Writable bool      `json:"writable,omitempty"` // registered with PollWritable (edge triggered, as the dialer does): OnWrite/OnHup only
 }
 
 type pollScn struct {
@@ -51,13 +51,13 @@ type pollRec struct {
 }
 
 type pollOutcome struct {
-	w        *e2World
-	recs     []*pollRec
-	parked   []string
-	livelock bool
-	loopDone bool
-	trigOK   bool
-	batchMax int
+	w         *e2World
+	recs      []*pollRec
+	parked    []string
+	livelock  bool
+	loopDone  bool
+	trigOK    bool
+	batchMax  int
 	earlyExit []string
 }
 
